@@ -77,6 +77,49 @@ def _short(x):
     return s if len(s) < 300 else s[:300] + "..."
 
 
+def default_resolver_contract(run):
+    """the library's own default resolver (the harness installs a schema default resolver, so the requests above never reach it) against its documented lookup:
+    a mapping answers with the value under the field's python name or null - whatever the name is; another object with its attribute of that name, called
+    with (context, info, **arguments) when callable; null otherwise.  Run through the public entry point on both synchronous executors."""
+    from py_gql import build_schema, process_graphql_query
+    from py_gql.execution import BlockingExecutor, Executor
+    names = ["title", "items", "keys", "values", "get", "copy", "pop", "update", "count", "index"]      # field names that are also methods of dict / list / str
+    sdl = "type Thing { %s } type Query { asDict: Thing asObject: Thing asEmptyDict: Thing asBareObject: Thing asMethods: Thing }" % " ".join(
+        "%s(n: Int = 2): String" % x for x in names)
+
+    class Obj:
+        pass
+
+    class Methods:
+        pass
+    full = {x: "v-" + x for x in names}
+    obj = Obj()
+    for x in names:
+        setattr(obj, x, "o-" + x)
+        setattr(Methods, x, (lambda x_: lambda self, ctx, info, n=None: "m-%s-%s-%s" % (x_, ctx, n))(x))
+    root = {"asDict": full, "asObject": obj, "asEmptyDict": {}, "asBareObject": Obj(), "asMethods": Methods()}
+    want = {"asDict": full, "asObject": {x: "o-" + x for x in names}, "asEmptyDict": dict.fromkeys(names), "asBareObject": dict.fromkeys(names),
+            "asMethods": {x: "m-%s-CTX-2" % x for x in names}}
+    query = "{ %s }" % " ".join("%s { %s }" % (k, " ".join(names)) for k in want)
+    n = 0
+    for label, ex in (("blocking-executor", BlockingExecutor), ("executor-blocking", Executor)):
+        n += 1
+        w = {"schema": sdl, "query": query, "config": label}
+        try:
+            res = process_graphql_query(build_schema(sdl), query, root=root, context="CTX", executor_cls=ex)
+        except Exception as e:
+            run.violation("default_resolver:documented-lookup", "the default resolver made the request raise %r" % (e,), dict(w, exc=type(e).__name__), True)
+            continue
+        got = {k: dict(v) if v is not None else None for k, v in (res.data or {}).items()}
+        if res.errors or got != want:
+            bad = [(k, x) for k in want for x in names if (got.get(k) or {}).get(x) != want[k][x]][:4]
+            run.violation("default_resolver:documented-lookup", "default resolution differs from the documented lookup at %r (errors: %r)" % (bad, [str(e) for e in res.errors][:2]),
+                          dict(w, differs_at=bad), True)
+    run.cov["bounded_functions"].append({"functions": ["py_gql.execution.default_resolver.default_resolver"],
+                                         "bound": "5 kinds of parent value x %d field names (incl. names of dict / list / str methods), 2 executors" % len(names)})
+    return n
+
+
 def _chunk(items):
     schema = H.make_schema()
     fails, n, nontriv = [], 0, 0
@@ -146,6 +189,7 @@ def check(tier, seed):
                 if bad:
                     run.violation("execute:independent-of-earlier-requests", "after earlier requests on the same schema object: " + bad[1],
                                   {"query": query, "world": wname, "history": [a[0], b[0]]}, True)
+    n += default_resolver_contract(run)
     run.cov["evaluations"] = n + hist
     run.cov["distinct_nontrivial"] = nontriv
     run.cov["parts"]["requests"] = {"operations": len({i[0] for i in items}), "request_world_pairs": len(items), "executions": n, "history_runs": hist}
